@@ -178,7 +178,7 @@ func modelCases2(c *ctx) {
 		r.Mark("case model2 %d", k)
 		// blocklist item
 		{
-			it := blocklist.Item{JID: g.njid(), Reason: []blocklist.ReportReason{"", blocklist.ReasonSpam, blocklist.ReasonAbuse}[g.r.Intn(3)], Text: g.opt()}
+			it := blocklist.Item{JID: g.njid(), Reason: []blocklist.ReportReason{"", blocklist.ReasonSpam, blocklist.ReasonAbuse}[g.intn(3)], Text: g.opt()}
 			for m := g.count(3); m > 0; m-- {
 				it.StanzaIDs = append(it.StanzaIDs, stanza.ID{ID: g.text(), By: g.njid()})
 			}
@@ -201,7 +201,7 @@ func modelCases2(c *ctx) {
 		// bookmark
 		{
 			exts := [][]byte{nil, []byte(`<a xmlns="urn:x"></a>`), []byte(`<a xmlns="urn:x">t&amp;</a><b xmlns="urn:y" k="v"></b>`)}
-			ch := bookmarks.Channel{Autojoin: g.r.Bool(), Name: g.opt(), Nick: g.opt(), Password: g.opt(), Extensions: exts[g.r.Intn(len(exts))]}
+			ch := bookmarks.Channel{Autojoin: g.boolean(), Name: g.opt(), Nick: g.opt(), Password: g.opt(), Extensions: exts[g.intn(len(exts))]}
 			bv := func(c *bookmarks.Channel) string {
 				return vl(va(strconv.FormatBool(c.Autojoin)), va(c.Name), va(c.Nick), va(c.Password))
 			}
@@ -217,7 +217,7 @@ func modelCases2(c *ctx) {
 		{
 			var s paging.Set
 			s.First.ID, s.First.Index, s.Last, s.Count = g.text(), up(g), g.text(), up(g)
-			res := history.Result{Complete: g.r.Bool(), Unstable: g.r.Bool(), Set: s}
+			res := history.Result{Complete: g.boolean(), Unstable: g.boolean(), Set: s}
 			fv := func(x *history.Result) string {
 				return vl(va(strconv.FormatBool(x.Complete)), va(strconv.FormatBool(!x.Unstable)), va(x.Set.First.ID), vopt(x.Set.First.Index), va(x.Set.Last), vopt(x.Set.Count))
 			}
@@ -232,7 +232,7 @@ func modelCases2(c *ctx) {
 		// MAM query
 		{
 			q := history.Query{ID: g.opt(), With: g.jid(), Start: g.time(true), End: g.time(true), BeforeID: g.opt(), AfterID: g.opt(),
-				Limit: g.u64(), Last: g.r.Bool(), PageID: g.opt(), Reverse: g.r.Bool(), IDs: g.texts(3)}
+				Limit: g.u64(), Last: g.boolean(), PageID: g.opt(), Reverse: g.boolean(), IDs: g.texts(3)}
 			if inRange(q.Start) && inRange(q.End) {
 				if out, toks := written(func() xml.TokenReader { return q.TokenReader() }); toks != nil {
 					jt := formDesc{}.jidTab(q.With.String())
@@ -249,7 +249,7 @@ func modelCases2(c *ctx) {
 		}
 		// mediated invitation
 		{
-			i := muc.Invitation{Continue: g.r.Bool(), JID: g.njid(), Password: g.opt(), Reason: g.opt(), Thread: g.opt()}
+			i := muc.Invitation{Continue: g.boolean(), JID: g.njid(), Password: g.opt(), Reason: g.opt(), Thread: g.opt()}
 			mv := func(x *muc.Invitation, norm bool) string {
 				return vl(va(x.JID.String()), va(x.Reason), vbool(x.Continue), va(x.Thread), va(x.Password))
 			}
@@ -263,7 +263,7 @@ func modelCases2(c *ctx) {
 		}
 		// command actions
 		{
-			a := commands.Actions(g.r.Intn(64))
+			a := commands.Actions(g.intn(64))
 			if out, toks := written(func() xml.TokenReader { return a.TokenReader() }); toks != nil {
 				c.pair("actions", actionsV(a), out, toks, "", func() (string, error) {
 					var d commands.Actions
@@ -276,10 +276,10 @@ func modelCases2(c *ctx) {
 		{
 			urls := []string{"", "https://example.net/up/a%20b?x=1&y=2", "http://[::1]:8080/p"}
 			var s upload.Slot
-			if u := urls[g.r.Intn(len(urls))]; u != "" {
+			if u := urls[g.intn(len(urls))]; u != "" {
 				s.PutURL, _ = url.Parse(u)
 			}
-			if u := urls[g.r.Intn(len(urls))]; u != "" {
+			if u := urls[g.intn(len(urls))]; u != "" {
 				s.GetURL, _ = url.Parse(u)
 			}
 			names := []string{"Authorization", "Cookie", "Expires", "cookie", "X-Other"}
@@ -287,7 +287,7 @@ func modelCases2(c *ctx) {
 				if s.Header == nil {
 					s.Header = http.Header{}
 				}
-				name := names[g.r.Intn(len(names))]
+				name := names[g.intn(len(names))]
 				s.Header[name] = append(s.Header[name], g.text())
 			}
 			if out, toks := written(func() xml.TokenReader { return s.TokenReader() }); toks != nil {
@@ -337,7 +337,7 @@ func modelCases2(c *ctx) {
 		// file metadata
 		{
 			m := file.Meta{MediaType: g.text(), Name: g.text(), Date: g.time(false).UTC(), Size: g.u64(), Width: g.u64(), Height: g.u64(), Length: g.u64()}
-			if !g.r.Chance(1, 4) {
+			if !g.chance(1, 4) {
 				m.Hash = crypto.HashOutput{Hash: g.hash(), Out: append([]byte{1}, g.bytes()...)}
 			}
 			if out, toks := written(func() xml.TokenReader { return m.TokenReader() }); toks != nil {
@@ -354,7 +354,7 @@ func modelCases2(c *ctx) {
 			for m := g.count(3); m > 0; m-- {
 				o := crypto.OwnedKeys{Owner: g.njid()}
 				for j := g.count(3); j > 0; j-- {
-					o.Keys = append(o.Keys, crypto.Key{Trusted: g.r.Bool(), KeyID: g.bytes()})
+					o.Keys = append(o.Keys, crypto.Key{Trusted: g.boolean(), KeyID: g.bytes()})
 				}
 				t.Keys = append(t.Keys, o)
 			}
@@ -368,7 +368,7 @@ func modelCases2(c *ctx) {
 		}
 		// forwarding / carbons
 		{
-			kind := g.r.Intn(3)
+			kind := g.intn(3)
 			d := delay.Delay{From: g.jid(), Time: g.time(false), Reason: g.opt()}
 			body := g.text()
 			inner := func() xml.TokenReader {
@@ -430,8 +430,8 @@ func modelCases2(c *ctx) {
 		if !xmlValid(node) || !xmlValid(id) || !xmlValid(text) {
 			continue
 		}
-		retract := g.r.Bool()
-		notify := g.r.Bool()
+		retract := g.boolean()
+		notify := g.boolean()
 		rs, err := common.NewRawSession(0, "jabber:client", jid.MustParse("me@example.net/r"), jid.MustParse("example.net"))
 		if err != nil {
 			continue
